@@ -1,7 +1,7 @@
 (* C01/Spec.v — the property as a truth table over the observable "identity produced".
    Written from the property text: the four signature states of the text (absent, valid,
    corrupted, valid under an untrusted key) are DERIVED here from what is on the wire (who signed,
-   was the signed content or the signature altered, which Issuer the signed element names, what its
+   was the signed content or the signature altered, WHAT the signature's References select, which Issuer the signed element names, what its
    KeyInfo ships) and from whom the SP trusts — not from the code's way of picking certificates.
    The single-message view of round 1 (spec / satisfied over Model.input) is kept below. *)
 From Coq Require Import Bool List.
@@ -42,11 +42,37 @@ Definition ships_signer (g : sgn) : bool :=
 Definition trusted (c : config) (w : who) (g : sgn) : bool :=
   md_trusts w (signer g) || (negb (only_md c) && negb (md_knows w) && ships_signer g).
 
+(* what a signature vouches for: the References that digest the element carrying the signature (its
+   own ID, by name or by xpointer, or the whole document).  A Reference to another element, to nothing
+   or to something outside the document says nothing about this element. *)
+Definition ref_covers_own (t : rtarget) : bool :=
+  match t with ROwn | RXPtr | REmpty | RNoUri => true | ROther | RBare | RDangling | RExternal => false end.
+Definition covers_own (s : shape) : bool := existsb ref_covers_own (refs s).
+(* "every signature present": the element carries no further ds:Signature (the extra one of the
+   abstract input never verifies) *)
+Definition sole (s : shape) : bool := match xsig s with XNone => true | XBefore | XAfter => false end.
+
+(* a signature VERIFIES THE ELEMENT when it is intact, digests that very element, is the only one the
+   element carries, and was made by a trusted key; present signatures that are not intact / do not
+   cover the element / come with a second one count as "corrupted" *)
 Definition state (c : config) (w : who) (s : option sgn) : sigst :=
   match s with
   | None => Absent
-  | Some g => if corrupt g then Corrupt else if trusted c w g then Valid else Untrusted
+  | Some g => if corrupt g || negb (covers_own (shp g)) || negb (sole (shp g)) then Corrupt
+              else if trusted c w g then Valid else Untrusted
   end.
+
+(* SAML core 5.4 (XML Signature profile): one Reference, to the ID of the enclosing element; exclusive
+   canonicalisation (with or without comments); the enveloped-signature transform, optionally together
+   with one exclusive canonicalisation transform, nothing else; no ds:Object; one ds:Signature.
+   Only such signatures have to be accepted. *)
+Definition is_exc (t : talg) : bool := match t with TExc | TExcWC => true | TEnv | TInc => false end.
+Definition in_profile (s : shape) : bool :=
+  match refs s with [ROwn] => true | _ => false end
+  && match c14n s with CExc | CExcWC => true | CInc => false end
+  && match trs s with [TEnv] => true | [TEnv; t] => is_exc t | [t; TEnv] => is_exc t | _ => false end
+  && negb (obj s) && sole s.
+Definition sig_in_profile (s : option sgn) : bool := match s with None => true | Some g => in_profile (shp g) end.
 
 Definition r_state (c : config) (m : msg) : sigst := state c (r_who m) (m_rs m).
 Definition a_state (c : config) (m : msg) : sigst := state c (a_who m) (m_as m).
@@ -59,10 +85,12 @@ Definition satisfied_m (c : config) (m : msg) : Prop :=
   /\ (wr_c c = true -> r_state c m = Valid) /\ (wa_c c = true -> a_state c m = Valid)
   /\ (wor_c c = true -> r_state c m = Valid \/ a_state c m = Valid).
 
-(* "otherwise valid": a binding the SP unravels, an assertion that names its issuer, and a Response
-   that — if it names an issuer — names the one of the assertion *)
+(* "otherwise valid": a binding the SP unravels, an assertion that names its issuer, a Response
+   that — if it names an issuer — names the one of the assertion, and signatures in the form the SAML
+   XML Signature profile prescribes *)
 Definition otherwise_valid (m : msg) : Prop :=
-  m_bind m <> PAOS /\ a_who m <> WNone /\ (r_who m = WNone \/ r_who m = a_who m).
+  m_bind m <> PAOS /\ a_who m <> WNone /\ (r_who m = WNone \/ r_who m = a_who m)
+  /\ sig_in_profile (m_rs m) = true /\ sig_in_profile (m_as m) = true.
 
 Definition spec_m (c : config) (m : msg) (identity : bool) : Prop :=
   (identity = true -> satisfied_m c m) /\ (satisfied_m c m -> otherwise_valid m -> identity = true).
@@ -82,7 +110,8 @@ Definition satisfied_m_b (c : config) (m : msg) : bool :=
 Definition is_paos (b : bind) : bool := match b with PAOS => true | _ => false end.
 
 Definition otherwise_valid_b (m : msg) : bool :=
-  negb (is_paos (m_bind m)) && has_issuer (a_who m) && (negb (has_issuer (r_who m)) || who_eqb (r_who m) (a_who m)).
+  negb (is_paos (m_bind m)) && has_issuer (a_who m) && (negb (has_issuer (r_who m)) || who_eqb (r_who m) (a_who m))
+  && sig_in_profile (m_rs m) && sig_in_profile (m_as m).
 
 Definition spec_m_b (c : config) (m : msg) (identity : bool) : bool :=
   implb identity (satisfied_m_b c m) && implb (satisfied_m_b c m && otherwise_valid_b m) identity.
